@@ -206,10 +206,44 @@ def check_tree(acc, t):
             node = encode(t)
 
 
+class LateVisitor(visitor.NodeVisitor):
+    """no handlers in the class body: they are attached later, to the instance (as tests/unit/test_visitor.py does with mocks)"""
+
+
+def check_late_handlers(acc, t):
+    node = encode(t)
+    kinds = []
+    for n in refsubst.traversal(t):
+        if n[0] not in kinds:
+            kinds.append(n[0])
+    v = LateVisitor()
+    v.visit(node)                      # first walk: nothing attached, everything goes through generic_visit
+    for kind in kinds:
+        calls = []
+        inst = LateVisitor()
+        inst.visit(node)
+        setattr(inst, "visit_" + kind, lambda n_, calls=calls, inst=inst: (calls.append(type(n_).__name__), visitor.NodeVisitor.generic_visit(inst, n_))[1])
+        inst.visit(node)
+        acc.count("executions")
+        exp = [k for k in (x[0] for x in refsubst.traversal(t)) if k == kind]
+        if calls != exp:
+            acc.violation("late-handler-ignored:" + kind, {"tree": t, "check": "late-handler", "kind": kind, "expected_calls": len(exp), "observed_calls": len(calls)})
+        # the same for a transformer
+        tr = visitor.NodeTransformer()
+        tr.visit(node)
+        setattr(tr, "visit_" + kind, lambda n_, kind=kind: ast.Identifier("__" + kind + "__"))
+        out = tr.visit(node)
+        acc.count("executions")
+        if decode(out) != ref_replace(t, kind):
+            acc.violation("late-override-ignored:" + kind, {"tree": t, "check": "late-handler", "kind": kind, "expected": ref_replace(t, kind), "observed": decode(out)})
+
+
 def _unit(trees):
     acc = Acc()
-    for t in trees:
+    for i, t in enumerate(trees):
         check_tree(acc, t)
+        if i % 4 == 0:
+            check_late_handlers(acc, t)
     acc.sample({"tree": trees[0]}, cap=1)
     return acc
 
@@ -262,4 +296,5 @@ def replay(ctx, case):
         eq = encode(l) == encode(r)
         return {"left": l, "right": r, "eq": eq, "ok": eq == (l == r)}
     check_tree(acc, _untuple(case["tree"]))
+    check_late_handlers(acc, _untuple(case["tree"]))
     return {"tree": case["tree"], "violations": acc.violations, "ok": not acc.violations}
